@@ -20,12 +20,16 @@ type ClientOpts struct {
 	ContentType    string
 	DefaultHeaders []KV
 	Helpers        []KV // helper func name -> value (client-level typed header helpers)
+	// SharedCallOptions: per-call header option VALUES built once when the client is made and handed to every call that names
+	// them in CallOpts.Shared - the caller who keeps `auth := WithXHeader(k, v)` in a variable and passes it to many calls
+	SharedCallOptions []KV
 }
 
 type CallOpts struct {
 	ContentType string
 	Headers     []KV
 	Helpers     []KV // call-level typed header helpers
+	Shared      []KV // option values of ClientOpts.SharedCallOptions, passed first
 }
 
 type Client interface {
